@@ -80,7 +80,8 @@ int run_script(std::size_t block_size)
         {
             verify(false);
             alloc->next_iteration(); ++its;
-            std::printf("n = %zu\n", alloc->cur_iteration());
+            { std::size_t ci = alloc->cur_iteration();
+              std::printf("n = %zu cap=%zu region=%zu\n", ci, alloc->capacity_left(ci), std::size_t(alloc->block_end(ci) - alloc->block_start(ci))); }
             // drop expired
             std::vector<live_t> keep;
             for (auto& l : live) if (its - l.born < long(N)) keep.push_back(l);
